@@ -174,7 +174,7 @@ Proof. intros H. simpl. now rewrite H. Qed.
 Ltac fcons := repeat first [apply Forall_nil | apply Forall_cons].
 
 Definition sync_post (rec : bool) (d np : nat) (sl : slot) : Prop :=
-  let ops := plan_sync_slot true sl in
+  forall know, let ops := plan_sync_slot true know sl in
   Forall (rinv true d) (strace np ops sl) /\
   exists sl' np', srun np ops sl = Some (sl', np') /\ bnd_slot sl' /\ rinv rec d sl' /\
     (sl_row sl <> None -> exists r, sl_row sl' = Some r /\ s_changed (e_org r) = false).
@@ -194,7 +194,7 @@ Proof.
   assert (Ht : rinv true d (slot_of sd o ps r)) by (destruct rec; [assumption|now apply rinv_weaken]).
   assert (Hf : forall rc, rinv rc d (commit (with_mem (slot_of sd o ps r) (ent_discarded r)) (ent_discarded r))).
   { intros rc. unfold rinv; simpl. rewrite Hl, Ha. auto. }
-  unfold sync_post, plan_sync_slot. simpl sl_mem. cbv iota. rewrite Ed.
+  unfold sync_post. intros know. unfold plan_sync_slot. simpl sl_mem. cbv iota. rewrite Ed.
   assert (E1 : sexec np SDiscard (slot_of sd o ps r) = Some (with_mem (slot_of sd o ps r) (ent_discarded r))).
   { simpl. rewrite Ed, Hl, Ha. reflexivity. }
   split.
@@ -213,7 +213,7 @@ Proof.
   set (s0 := slot_of sd o ps r). set (e1 := ent_refreshed r o). set (s1 := with_mem s0 e1).
   assert (E1 : sexec np SRefresh s0 = Some s1) by reflexivity.
   assert (Hfr : fresh e1 o = true) by apply fresh_ent_refreshed.
-  unfold sync_post, plan_sync_slot. simpl sl_mem. cbv iota. rewrite Ed. simpl sl_org. rewrite Hl. simpl negb. cbv iota.
+  unfold sync_post. intros know. unfold plan_sync_slot. simpl sl_mem. cbv iota. rewrite Ed. simpl sl_org. rewrite Hl. simpl negb. cbv iota.
   simpl sl_peers.
   (* what is there to delete *)
   assert (Hcases : (exists p, ps = [p] /\ linked r = true /\ e_ref r = 0 /\ os_live (o_now p) = true) \/
@@ -300,7 +300,7 @@ Proof.
     split; [reflexivity|]. split; [assumption|]. apply reflects_new_peer. }
   assert (Hf : forall rc, rinv rc d (commit s3 e3)).
   { intros rc. apply rinv_linked_entry; auto. apply reflects_new_peer. }
-  unfold sync_post, plan_sync_slot. simpl sl_mem. cbv iota. rewrite Ed. simpl sl_org. rewrite Hl. simpl negb. cbv iota.
+  unfold sync_post. intros know. unfold plan_sync_slot. simpl sl_mem. cbv iota. rewrite Ed. simpl sl_org. rewrite Hl. simpl negb. cbv iota.
   unfold linked in El. rewrite El. simpl negb. cbv iota. simpl sl_peers.
   change (first_live_at (os_path (o_now o)) []) with (@None nat). cbv iota. simpl length.
   split.
@@ -326,7 +326,7 @@ Proof.
   { simpl. fold e1. rewrite Hfr, Hl, Ed, Hrf. reflexivity. }
   assert (Hf : forall rc, rinv rc d (commit s3 e3)).
   { intros rc. apply rinv_linked_entry; auto. }
-  unfold sync_post, plan_sync_slot. simpl sl_mem. cbv iota. rewrite Ed. simpl sl_org. rewrite Hl. simpl negb. cbv iota.
+  unfold sync_post. intros know. unfold plan_sync_slot. simpl sl_mem. cbv iota. rewrite Ed. simpl sl_org. rewrite Hl. simpl negb. cbv iota.
   unfold linked in El. rewrite El. simpl negb. cbv iota. simpl sl_peers.
   assert (Hfl : first_live_at (os_path (o_now o)) [p] = Some 0).
   { unfold first_live_at, live_at. rewrite Rl, Rc, Rp, N.eqb_refl. reflexivity. }
@@ -418,7 +418,7 @@ Proof.
   assert (E1 : sexec np SRefresh s0 = Some s1) by reflexivity.
   assert (Hfr : fresh e1 o = true) by apply fresh_ent_refreshed.
   assert (Ed1 : e_disc e1 = false) by exact Ed.
-  unfold sync_post, plan_sync_slot. simpl sl_mem. cbv iota. rewrite Ed. simpl sl_org. rewrite Hl. simpl negb. cbv iota.
+  unfold sync_post. intros know. unfold plan_sync_slot. simpl sl_mem. cbv iota. rewrite Ed. simpl sl_org. rewrite Hl. simpl negb. cbv iota.
   unfold linked in El. rewrite El. simpl negb. cbv iota. simpl sl_peers. rewrite Er. simpl nth_error. cbv iota.
   fold (linked r) in El.
   assert (Hmid : forall q, midP r (o_now o) d (o_ev o) (o_now q) ->
@@ -429,18 +429,24 @@ Proof.
     by (intros q n HP Hrf; apply tail_link; auto).
   (* the upload part, from any middle state whose path is already right *)
   assert (Hupl : forall q n, midP r (o_now o) d (o_ev o) (o_now q) -> os_path (o_now q) = os_path (o_now o) ->
+            os_kind (o_now q) = os_kind (o_now p) ->
             tail_post rec d n
               ((if opt_eqb (s_shash (e_org r)) (hash_of (os_kind (o_now o))) then []
+                else if know && kind_eqb (os_kind (o_now p)) (os_kind (o_now o)) then []
                 else match os_kind (o_now o) with KFile _ => [SPUpload 0] | KDir => [] end) ++ [SLink 0; SRow])
               {| sl_side := sd; sl_org := o; sl_peers := [q]; sl_mem := Some e1; sl_row := Some r; sl_dirty := true |}).
-  { intros q n HP Hpath. pose proof HP as (Lq & (Hq1 & Hq2 & Hq3 & Hq4) & Hqi).
+  { intros q n HP Hpath Hkp. pose proof HP as (Lq & (Hq1 & Hq2 & Hq3 & Hq4) & Hqi).
     assert (Hrefl : os_kind (o_now q) = os_kind (o_now o) -> reflects (o_now q) (o_now o) = true).
     { intros Hk. unfold reflects. rewrite Hpath, Hk, N.eqb_refl, kind_eqb_refl, Lq, Hq3. reflexivity. }
     destruct (opt_eqb (s_shash (e_org r)) (hash_of (os_kind (o_now o)))) eqn:Cu.
     - (* the marks say the content is there *)
       simpl app. apply Hlink; [assumption|]. apply Hrefl. apply opt_eqb_eq in Cu.
       destruct Hq2 as [Hq2|Hq2]; [|assumption]. apply hash_of_inj; [assumption|congruence].
-    - destruct (os_kind (o_now o)) as [c|] eqn:Ko.
+    - destruct (know && kind_eqb (os_kind (o_now p)) (os_kind (o_now o))) eqn:Ck.
+      { (* the entry knows the peer already has this content: merged, no provider write *)
+        simpl app. apply Hlink; [assumption|]. apply Hrefl. apply andb_true_iff in Ck as [_ Ck].
+        apply kind_eqb_eq in Ck. congruence. }
+      destruct (os_kind (o_now o)) as [c|] eqn:Ko.
       + destruct (os_kind (o_now q)) as [c'|] eqn:Kq; [|destruct Hq4].
         simpl app.
         set (q' := push q {| os_path := os_path (o_now q); os_kind := KFile c; os_live := true; os_conf := os_conf (o_now q) |} (S n)).
@@ -456,16 +462,17 @@ Proof.
   assert (Hren : tail_post rec d np
               ((if opt_eqb (s_spath (e_org r)) (Some (os_path (o_now o))) then [] else [SPRename 0]) ++
                (if opt_eqb (s_shash (e_org r)) (hash_of (os_kind (o_now o))) then []
+                else if know && kind_eqb (os_kind (o_now p)) (os_kind (o_now o)) then []
                 else match os_kind (o_now o) with KFile _ => [SPUpload 0] | KDir => [] end) ++ [SLink 0; SRow]) s1).
   { destruct (opt_eqb (s_spath (e_org r)) (Some (os_path (o_now o)))) eqn:Cr.
-    - simpl app. apply Hupl; [assumption|]. apply opt_eqb_eq in Cr.
+    - simpl app. apply Hupl; [assumption| |reflexivity]. apply opt_eqb_eq in Cr.
       destruct Hhalf as ([H|H] & _); [congruence|assumption].
     - simpl app.
       set (q' := push p {| os_path := os_path (o_now o); os_kind := os_kind (o_now p); os_live := true; os_conf := false |} (S np)).
       assert (E2 : sexec np (SPRename 0) s1 = Some {| sl_side := sd; sl_org := o; sl_peers := [q']; sl_mem := Some e1; sl_row := Some r; sl_dirty := true |}).
       { simpl. fold e1. rewrite Hfr, Hl, Hlp. reflexivity. }
       assert (HP' : midP r (o_now o) d (o_ev o) (o_now q')) by (subst q'; simpl; apply midP_rename; assumption).
-      eapply tail_cons; [exact E2|apply (Hmid p); assumption|]. apply Hupl; [assumption|reflexivity]. }
+      eapply tail_cons; [exact E2|apply (Hmid p); assumption|]. apply Hupl; [assumption|reflexivity|reflexivity]. }
   destruct (tail_cons rec d np SRefresh _ s0 s1 E1 Ht Hren) as [HF [sl' [np' (A & B & C & D)]]].
   split; [exact HF|]. exists sl', np'. split; [exact A|]. split; [exact B|]. split; [exact C|]. intros _. exact D.
 Qed.
@@ -486,7 +493,7 @@ Proof.
     + destruct Hr' as [_ [->|[-> [p (-> & _ & Hrf)]]]]; [now apply sync_create|now apply sync_adopt].
   - assert (Ht : rinv true d {| sl_side := sd; sl_org := o; sl_peers := ps; sl_mem := None; sl_row := None; sl_dirty := false |})
       by (destruct rec; [assumption|now apply rinv_weaken]).
-    unfold sync_post, plan_sync_slot. simpl. split; [constructor; [assumption|constructor]|]. eexists _, _.
+    unfold sync_post. intros know. unfold plan_sync_slot. simpl. split; [constructor; [assumption|constructor]|]. eexists _, _.
     split; [reflexivity|]. split; [split; reflexivity|]. split; [assumption|]. intros H. now contradict H.
 Qed.
 
@@ -794,7 +801,8 @@ Proof.
   - (* KSync *)
     unfold plan_sync. destruct (nth_error (slots (c_st c)) i) as [sl|] eqn:Ei.
     + pose proof Hb as (_ & _ & Hf). rewrite Forall_forall in Hf. destruct (Hf sl (nth_error_In _ _ Ei)) as (A & B & _).
-      destruct (sync_slot_ok (c_rec c) _ (sel (negb (sl_side sl)) (nev (c_st c))) sl A B) as [HF [sl' [np' (Hs & Hbd & Hr & _)]]].
+      destruct (sync_slot_ok (c_rec c) _ (sel (negb (sl_side sl)) (nev (c_st c))) sl A B (knows_peers (c_st c) sl))
+        as [HF [sl' [np' (Hs & Hbd & Hr & _)]]].
       apply slot_ops_binv with (sl := sl); eauto.
     + split; [now destruct c|]. intros k. rewrite firstn_nil. now apply binv_crash.
 Qed.
@@ -935,7 +943,7 @@ Proof.
     unfold do_sync, plan_sync. rewrite Ei.
     pose proof B1 as (_ & _ & Hf). simpl in Hf. rewrite Forall_forall in Hf.
     destruct (Hf sl (nth_error_In _ _ Ei)) as (A & B & C).
-    destruct (sync_slot_ok (c_rec c) _ (sel (negb (sl_side sl)) (nev b)) sl A B) as [HF [sl' [np' (Hs & Hbd & Hr & Hdone)]]].
+    destruct (sync_slot_ok (c_rec c) _ (sel (negb (sl_side sl)) (nev b)) sl A B (knows_peers b sl)) as [HF [sl' [np' (Hs & Hbd & Hr & Hdone)]]].
     destruct (slot_plan_full {| c_st := b; c_rec := c_rec c |} n sl _ sl' np' B1 Ei Hs Hbd Hr)
       as [y (R1 & R2 & R3 & R4 & R5 & R6)].
     unfold do_plan. simpl c_st in R1, R2, R3, R4, R5. simpl c_rec in R6. rewrite R1.
@@ -1004,8 +1012,8 @@ Proof.
   destruct (intake_ok {| c_st := x2; c_rec := true |} true H2) as (H3 & [C3a C3b] & N3 & D3 & M3 & S3). simpl c_st in *. simpl c_rec in *.
   set (a := do_intake true x2) in *. simpl negb in *.
   assert (Hcov : all_cov a).
-  { intros sl Hin. pose proof H3 as (_ & _ & Hf). simpl in Hf. rewrite Forall_forall in Hf. destruct (Hf sl Hin) as (_ & _ & Hle).
-    destruct (sl_side sl); simpl in *; [rewrite C3a|rewrite D3, C2a, <- N3]; exact Hle. }
+  { intros sl Hin. pose proof H3 as (_ & _ & Hf). cbn [c_st c_rec] in Hf. rewrite Forall_forall in Hf. destruct (Hf sl Hin) as (_ & _ & Hle).
+    destruct (sl_side sl); cbn [sel negb] in *; [rewrite C3a|rewrite D3, C2a, <- N3]; exact Hle. }
   destruct (syncs_ok (length (slots a)) {| c_st := a; c_rec := true |} H3 Hcov (le_n _))
     as (B1 & B2 & B3 & B4 & B5 & B6 & B7 & _). simpl c_st in *. simpl c_rec in *.
   set (b := do_syncs true a (length (slots a))) in *.
@@ -1015,36 +1023,36 @@ Proof.
   set (y1 := do_intake false b) in *. simpl negb in *.
   assert (Hm1 : mcur y1 = dcur y1) by (destruct H4 as (A & _); exact A).
   assert (Hcov1 : all_cov y1).
-  { intros sl Hin. pose proof H4 as (_ & _ & Hf). simpl in Hf. rewrite Forall_forall in Hf. destruct (Hf sl Hin) as (_ & _ & Hle).
+  { intros sl Hin. pose proof H4 as (_ & _ & Hf). cbn [c_st c_rec] in Hf. rewrite Forall_forall in Hf. destruct (Hf sl Hin) as (_ & _ & Hle).
     rewrite S4 in Hin. pose proof (B4 sl Hin) as Hb4.
-    destruct (sl_side sl); simpl in Hle, Hb4, D4, C4a |- *; [rewrite D4; exact Hb4|rewrite C4a; exact Hle]. }
+    destruct (sl_side sl); cbn [sel negb] in Hle, Hb4, D4, C4a |- *; [rewrite D4; exact Hb4|rewrite C4a; exact Hle]. }
   destruct (intake_ok {| c_st := y1; c_rec := true |} true H4) as (H5 & [C5a C5b] & N5 & D5 & M5 & S5). simpl c_st in *. simpl c_rec in *.
   rewrite (no_pending_map true y1 Hm1 Hcov1) in S5.
   set (y := do_intake true y1) in *. simpl negb in *.
   (* settled *)
   assert (Hslots : slots y = slots b) by congruence.
   assert (Hdone : forall sl, In sl (slots y) -> done_slot sl /\ o_ev (sl_org sl) <= sel (sl_side sl) (dcur y) /\ sl_dirty sl = false).
-  { intros sl Hin. pose proof H5 as (_ & _ & Hf). simpl in Hf. rewrite Forall_forall in Hf. destruct (Hf sl Hin) as ((Hd & _) & _ & Hle).
+  { intros sl Hin. pose proof H5 as (_ & _ & Hf). cbn [c_st c_rec] in Hf. rewrite Forall_forall in Hf. destruct (Hf sl Hin) as ((Hd & _) & _ & Hle).
     rewrite Hslots in Hin. apply In_nth_error in Hin as [i Hi].
     assert (Hlt : i < length (slots a)) by (rewrite <- B6; apply nth_error_Some; congruence).
     destruct (B7 i Hlt) as [sl0 [E0 Hd0]]. rewrite Hi in E0. injection E0 as <-.
     split; [assumption|]. split; [|assumption].
-    destruct (sl_side sl); simpl in *; [rewrite C5a|rewrite D5, C4a, <- N5]; exact Hle. }
+    destruct (sl_side sl); cbn [sel negb] in *; [rewrite C5a|rewrite D5, C4a, <- N5]; exact Hle. }
   assert (Hset : settled y = true).
   { unfold settled. rewrite !andb_true_iff. repeat split.
     - apply forallb_forall. intros sl Hin. destruct (Hdone sl Hin) as ([r [Er Hc]] & Hle & Hd).
       unfold slot_settled. rewrite Hd, Er, Hc. simpl. rewrite andb_true_r. apply Nat.leb_le. assumption.
-    - apply Nat.eqb_eq. simpl in D5. rewrite D5. simpl in C4a. rewrite C4a, <- N5. reflexivity.
+    - apply Nat.eqb_eq. cbn [sel negb] in D5, C4a. rewrite D5, C4a, <- N5. reflexivity.
     - apply Nat.eqb_eq. exact C5a.
-    - apply Nat.eqb_eq. simpl in M5. rewrite M5. simpl in C4b. rewrite C4b, <- N5. reflexivity.
+    - apply Nat.eqb_eq. cbn [sel negb] in M5, C4b. rewrite M5, C4b, <- N5. reflexivity.
     - apply Nat.eqb_eq. exact C5b. }
   pose proof (binv_settle y H5 Hset) as H6.
   assert (Hper : forall sl, In sl (slots y) ->
             slot_view false sl = slot_view true sl /\
             existsb (fun o => os_live (o_now o) && os_conf (o_now o)) (sl_org sl :: sl_peers sl) = false /\
             live_count (sl_peers sl) <= 1).
-  { intros sl Hin. pose proof H6 as (_ & _ & Hf). simpl in Hf. rewrite Forall_forall in Hf. destruct (Hf sl Hin) as (_ & Hr & _).
-    destruct (Hdone sl Hin) as (Hd & Hle & _). eapply done_slot_views; eauto. }
+  { intros sl Hin. pose proof H6 as (_ & _ & Hf). cbn [c_st c_rec] in Hf. rewrite Forall_forall in Hf. destruct (Hf sl Hin) as (_ & Hr & _).
+    destruct (Hdone sl Hin) as (Hd & Hle & _). exact (done_slot_views _ sl Hr Hd Hle). }
   split; [exact Hset|]. split.
   { unfold view. apply flat_map_ext_in. intros sl Hin. apply Hper. assumption. }
   split.
